@@ -4,13 +4,14 @@ From Lime Require Import Base.Res Tcp.Writer Tcp.Reader Corr.Tcp.
 Definition case := Corr.Tcp.case.
 
 (* writer: the wire is the concatenation of the acknowledged encodings followed by a prefix
-   of the one whose Send failed (if any); nothing duplicated, reordered or fabricated *)
+   of the one whose Send failed (if any), and no Send after a failed one succeeds; nothing duplicated, reordered or
+   fabricated *)
 Fixpoint wire_ok (frames : list (list nat)) (oks : list bool) (wire : list nat) : bool :=
   match oks, frames with
   | [], _ => match wire with [] => true | _ => false end
   | true :: oks', f :: frames' =>
       prefixb f wire && wire_ok frames' oks' (skipn (length f) wire)
-  | false :: oks', f :: _ => prefixb wire f && match oks' with [] => true | _ => false end
+  | false :: oks', f :: _ => prefixb wire f && forallb negb oks'
   | _ :: _, [] => false
   end.
 
